@@ -79,7 +79,7 @@ def r_check_dom(rep, prog):
         rep.floor(rule, "guarded calls in %s" % fn.split("::")[-1], n, 4)
         # failure edge returns an error
         for rn in ps.return_nodes():
-            env = ps.env_of(rn)
+            env = ps.term_env_of(rn)
             if env.get(("c", cb)) == 1:
                 rep.check(ps.ret_discr(rn) == 1, rule, "%s|check-fail-returns-err" % fn,
                           "failing check returns Err", "a failing check does not return Err", ct["span"])
@@ -277,7 +277,7 @@ def r_zone_flow(rep, prog):
                   "inner call only on the success edge of the translation (%d states)" % len(states),
                   "inner allocator is called although the offset translation failed", it["span"])
         for rn in ps.return_nodes():
-            env = ps.env_of(rn)
+            env = ps.term_env_of(rn)
             failed = any(env.get(("c", sb)) == (1 - want) for sb in sub_sites)
             if failed and m != "stats_at":
                 rep.check(ps.ret_discr(rn) == 1, rule, "%s|fail-returns-err" % fn, "translation failure returns Err",
@@ -341,7 +341,7 @@ def r_new_valid(rep, prog):
                       "%s only after valid() returned true" % name, "%s reachable without valid() == true" % name, t["span"])
     rep.floor(rule, "constructors guarded by valid", n, 3)
     for rn in ps.return_nodes():
-        env = ps.env_of(rn)
+        env = ps.term_env_of(rn)
         if env.get(("c", vb)) == 0:
             ok = ps.ret_discr(rn) == 1 and env.get(("d", 0, ("as1", ".0"))) == 4
             rep.check(ok, rule, "new|invalid-returns-initialization", "invalid metadata returns Err(Error::Initialization)",
